@@ -680,7 +680,7 @@ def fixed_cases(thorough: bool = False):
             for mode in mft["modes"]:
                 if W.excluded(stream, mode):
                     continue
-                for tl in (("0", "1") if "segmentTimeline" in mft["features"] and stream in ("synshort", "synlong", "synlong2", "synodd") else (None,)):
+                for tl in (("0", "1") if "segmentTimeline" in mft["features"] and stream in ("c5short", "c5long", "c5long2", "synodd") else (None,)):
                     q = ([["depth", "20"]] if mode == "live" else []) + ([["timeline", tl]] if tl else [])
                     out.append(plain("single", stream, name, mode, q + [["acodec", "any"]]))
     # exact string lengths for a stored and a requested string
@@ -689,6 +689,17 @@ def fixed_cases(thorough: bool = False):
         c = plain("single", "tears", ["hand_made.mpd", "manifest_b.mpd"][i % 2], "vod", [["x", text[:min(n, 65537)]]], stored={"title": text})
         c["hostile"] = ["stored:title", "q:0"]
         out.append(c)
+    # offset grid: multi-period streams whose Periods start inside their streams x every template x vod / live
+    # x with and without SegmentTimeline where the template has the option
+    for stream in W.OFFSET_MPS:
+        for name, mft in W.manifests().items():
+            for mode in mft["modes"]:
+                if mode == "odvod":
+                    continue
+                tls = ("0", "1") if "segmentTimeline" in mft["features"] else (None,)
+                for tl in tls:
+                    q = ([["timeline", tl]] if tl else []) + ([["depth", "60"]] if mode == "live" else [])
+                    out.append(plain("multi", stream, name, mode, q))
     # track-layout grid: streams whose audio / video / text files share or spread track ids and codec
     # families x every template x mode x track-selection options (what the grouping code looks at)
     k = 0
